@@ -21,6 +21,7 @@ class Session:
         self.functions = set(); self.contracts = set(); self.bounds = {}
         self.paths = 0; self.blocks = 0
         self.witnesses = []        # vacuity witnesses (name, verdict)
+        self.native_runs = 0
         self.undecided = []
 
     # ------------------------------------------------------------------ bookkeeping
@@ -69,11 +70,12 @@ class Session:
         self.queries += d['queries']; self.violations += d['violations']; self.notes += d['notes']; self.samples += d['samples']
         self.functions |= set(d['functions']); self.contracts |= set(d['contracts']); self.bounds.update(d['bounds'])
         self.paths += d['paths']; self.blocks += d['blocks']; self.witnesses += d['witnesses']; self.undecided += d['undecided']
+        self.native_runs += d.get('native_runs', 0)
 
     def export(self):
         return {'queries': self.queries, 'violations': self.violations, 'notes': self.notes, 'samples': self.samples,
                 'functions': sorted(self.functions), 'contracts': sorted(self.contracts), 'bounds': self.bounds,
-                'paths': self.paths, 'blocks': self.blocks, 'witnesses': self.witnesses, 'undecided': self.undecided}
+                'paths': self.paths, 'blocks': self.blocks, 'witnesses': self.witnesses, 'undecided': self.undecided, 'native_runs': self.native_runs}
 
 
 def model_bytes(rec, terms):
